@@ -24,6 +24,7 @@ for mod in reversed(backends):
     if mod[1] in sys.modules:
         backend_name = mod[0]
         backend = sys.modules[mod[1]]
+        if hasattr(backend, "select"): backend.select() # several variants of one base module may have been imported
         break
 
 if backend is None and "PYSNARK_BACKEND" in os.environ:
